@@ -35,7 +35,7 @@ class Cb:
         return self
 
 
-def build(agents):
+def build(agents, preregistered=False):
     from pydcop.infrastructure.discovery import Directory, Discovery
 
     world = netx.World()
@@ -54,6 +54,20 @@ def build(agents):
         c.start()
         world.started.append(c.name)
     world.mon["ref"] = {"hosted": {}, "replicas": [], "subs": [], "agents": [], "nops": 0, "unsubbed": []}
+    if preregistered:
+        # start from a non-initial state: every agent has registered and the directory knows it (deterministic drain)
+        from vf.core import choice as choice_mod
+
+        sp = DiscSpec(agents, [], 0)
+        world.mon["_spec"] = sp
+        for a in agents:
+            disc(world, a).register_agent(a, "addr_" + a)
+            world.mon["ref"]["agents"].append(a)
+        while True:
+            evs = netx.enabled_events(world, sp)
+            if not evs:
+                break
+            netx.apply_event(world, evs[0], sp, choice_mod.Controller())
     return world
 
 
@@ -87,7 +101,7 @@ class DiscSpec(netx.Spec):
             for c in self.cnames:
                 h = ref["hosted"].get(c)
                 prev = ref.get("last_host", {}).get(c)
-                prev_in_flight = prev is not None and prev != x and world.chans.get(("_discovery_" + prev, "_directory"))
+                prev_in_flight = prev is not None and prev != x and (world.chans.get(("_discovery_" + prev, "_directory")) or world.chans.get(("_directory", "_discovery_" + x)))
                 if h is None and not prev_in_flight:
                     # re-hosting goes through the directory: a new host registers a computation only once the former host's
                     # messages have reached the directory (the protocol carries no version numbers)
@@ -102,7 +116,9 @@ class DiscSpec(netx.Spec):
                 for kind in ("C", "R"):
                     if (x, kind, c) in [tuple(s) for s in ref["subs"]]:
                         evs.append(("op", x, "unsub" + kind, c))
-                    else:
+                    elif kind == "C" or self._knows(world, x, c):
+                        # replicas can only be recorded for a computation the agent knows: subscribing to the replicas of a
+                        # computation presupposes knowing it (as ResilientAgent / UCSReplication do)
                         evs.append(("op", x, "sub" + kind, c))
             for y in self.agents:
                 if y != x:
@@ -246,6 +262,8 @@ class DiscSpec(netx.Spec):
                     report("C20|callback-not-fired|computation", f"quiescent: {x} sees computation {item} on {mine} but its callback never fired; model {ref}")
                     return
             elif kind == "R":
+                if ref["hosted"].get(item) is None or view_c(d, item) is None:
+                    continue  # replicas are only defined while the computation exists and is known to the agent
                 mine, theirs = view_r(d, item), view_r(dd, item)
                 if mine != theirs:
                     stale = "stale-replica" if mine - theirs else "missing-replica"
@@ -261,7 +279,7 @@ class DiscSpec(netx.Spec):
 
 
 def explore(agents, comps, max_ops, first_ops, part, with_unreg_agent=False):
-    world = build(agents)
+    world = build(agents, preregistered=not with_unreg_agent)
     sp = DiscSpec(agents, comps, max_ops, with_unreg_agent)
     ex = netx.Explorer(sp, shared=[], max_states=1500000)
     # the search is sharded by the first operation: only events equal to `first` are taken in the initial state
@@ -292,7 +310,7 @@ def shard(args):
 
 
 def first_events(agents, comps, unreg):
-    world = build(agents)
+    world = build(agents, preregistered=not unreg)
     sp = DiscSpec(agents, comps, 99, unreg)
     world.mon["_spec"] = sp
     return [list(e) for e in netx.enabled_events(world, sp)]
@@ -301,7 +319,7 @@ def first_events(agents, comps, unreg):
 def run(ctx):
     ctx.level = "model_checking"
     if ctx.quick:
-        plans = [(AGENTS2, ["c1"], 5, False)]
+        plans = [(AGENTS2, ["c1"], 5, False), (AGENTS2, ["c1"], 4, True)]
     else:
         plans = [(AGENTS2, ["c1"], 7, True), (AGENTS2, ["c1", "c2"], 5, False), (AGENTS3, ["c1"], 5, False)]
     items = []
@@ -325,7 +343,7 @@ def run(ctx):
 
 
 def replay(case):
-    world = build(case["agents"])
+    world = build(case["agents"], preregistered=not case.get("with_unreg_agent", False))
     sp = DiscSpec(case["agents"], case["comps"], case["max_ops"], case.get("with_unreg_agent", False))
     found = []
 
